@@ -453,13 +453,15 @@ def memoize_when_activated(fun):
     def wrapper(self):
         try:
             # case 1: we previously entered oneshot() ctx
-            ret = self._cache[fun]
+            cache = self._cache
         except AttributeError:
             # case 2: we never entered oneshot() ctx
             try:
                 return fun(self)
             except Exception as err:  # noqa: BLE001
                 raise err from None
+        try:
+            ret = cache[fun]
         except KeyError:
             # case 3: we entered oneshot() ctx but there's no cache
             # for this entry yet
@@ -467,12 +469,14 @@ def memoize_when_activated(fun):
                 ret = fun(self)
             except Exception as err:  # noqa: BLE001
                 raise err from None
-            try:
-                self._cache[fun] = ret
-            except AttributeError:
-                # multi-threading race condition, see:
-                # https://github.com/giampaolo/psutil/issues/1948
-                pass
+            # Store into the very dict we looked up. If another thread
+            # exited the oneshot() ctx in the meantime this dict is no
+            # longer referenced by self._cache (harmless), see:
+            # https://github.com/giampaolo/psutil/issues/1948
+            # Re-reading self._cache here instead would let a value
+            # computed before a *later* oneshot() ctx was entered end up
+            # in that later ctx's cache.
+            cache[fun] = ret
         return ret
 
     def cache_activate(proc):
